@@ -690,6 +690,9 @@ def c13_corpus(seed, tier, cases):
 
 
 # ---------------------------------------------------------------- C15: extraction of the pool maps
+C15_R1, C15_R2 = 0x0F1E2D3C4B5A6978, 0x8796A5B4C3D2E1F0     # the two loop-count readings of the variable-round path
+
+
 def c15_schedule(seed, tier):
     rng = random.Random(seed * 1000003 + 15)
     S = Sched()
@@ -702,6 +705,12 @@ def c15_schedule(seed, tier):
         ops.append({"op": "set_pool", "g": 1, "pool": u64(pool)})
         ops.append({"op": "timer_stats", "g": 1, "var": False, "tag": tag})
 
+    def foldv(tag, pool, time):
+        # the variable-round path (the one entropy collection uses): 4 readings, two of them loop-count draws
+        readings.extend([time, C15_R1, C15_R2, (time + 1) & M64])
+        ops.append({"op": "set_pool", "g": 1, "pool": u64(pool)})
+        ops.append({"op": "timer_stats", "g": 1, "var": True, "tag": tag})
+
     def stir(tag, pool):
         ops.append({"op": "set_pool", "g": 1, "pool": u64(pool)})
         ops.append({"op": "stir", "g": 1, "tag": tag})
@@ -709,6 +718,16 @@ def c15_schedule(seed, tier):
         fold(["lp", i], 0 if i < 0 else 1 << i, C)
     for j in range(-1, 64):
         fold(["lt", j], P0, 0 if j < 0 else 1 << j)
+    def collect(tag, pool):
+        # one whole collection (next_u64, default rounds) over identical readings: the cursor is re-seated first
+        late.append({"op": "seek", "g": 1, "pos": None})
+        late.append({"op": "set_pool", "g": 1, "pool": u64(pool)})
+        late.append({"op": "next_u64", "g": 1, "tag": tag})
+    nx_at, late = [None], []      # the whole-collection calls run after all the others (they move the cursor)
+    for i in range(-1, 64):
+        foldv(["lv", i], 0 if i < 0 else 1 << i, C)
+    for j in range(-1, 64):
+        foldv(["tv", j], P0, 0 if j < 0 else 1 << j)
     for i in range(-1, 64):
         stir(["st", i], 0 if i < 0 else 1 << i)
     # NB: the linear part of "lp"/"lt" is taken relative to f(0) recorded with the same fixed argument
@@ -718,10 +737,27 @@ def c15_schedule(seed, tier):
         for which, v in (("a", a), ("b", b), ("ab", a ^ b)):
             fold(["aff", "lp", k, which], v, C)
             fold(["aff", "lt", k, which], P0, v)
+            foldv(["aff", "lv", k, which], v, C)
+            foldv(["aff", "tv", k, which], P0, v)
+            if k < 12:
+                collect(["aff", "nx", k, which], v)
             stir(["aff", "st", k, which], v)
-    head = [{"op": "timer", "t": 1, "readings": [u64(x) for x in readings], "cont": [u64(1)]},
+    for i in range(-1, 64):
+        collect(["nx", i], 0 if i < 0 else 1 << i)
+    # the readings of the whole-collection calls: appended after everything the other calls consume
+    nx_at[0] = len(readings)
+    for o in late:
+        if o["op"] == "seek":
+            o["pos"] = nx_at[0]
+    ops.extend(late)
+    t = rng.getrandbits(48)
+    for k in range(1200):
+        t = (t + rng.choice([0, 1, 17, 100, 101, 977, 4099, rng.getrandbits(20), rng.getrandbits(33)])) & M64
+        readings.append(t)
+    head = [{"op": "timer", "t": 1, "readings": [u64(x) for x in readings], "cont": [u64(1009)]},
             {"op": "jit_new", "g": 1, "t": 1}]
     S.case("pool map extraction", head + ops)
+    S.nx_readings = readings[nx_at[0]:]
     return S
 
 
@@ -948,6 +984,32 @@ def suffix_ops(kind, rng, blockbytes):
     return ops
 
 
+def far_corpus(seed, tier, quick_kinds=None):
+    """Positions far into the stream (past 2^8 / 2^16 blocks resp. words, where narrow counters would wrap): a
+    generator and its clone skip the same number of bytes, one through fill_bytes, the other through its native
+    call, and then run in lock step.  Only an FNV digest of the skipped bytes is recorded (Trace_Pair: the digests and
+    everything after must agree, and nothing may panic)."""
+    rng = random.Random(seed * 1000003 + 77)
+    S = Sched()
+    bb = {"Hc128Rng": 64, "IsaacRng": 1024, "Isaac64Rng": 2048}
+    for kind in ALL_SEEDABLE:
+        nat = "u32" if WORDBYTES[kind] == 4 else "u64"
+        blk = bb.get(kind, 8)
+        skips = [(1 << 8) * blk + 3 * blk]
+        skips.append((1 << 16) * blk + 300 * blk)
+        for si, n in enumerate(skips):
+            sd = [rng.getrandbits(8) for _ in range(SEEDLEN[kind])]
+            ops = [{"op": "from_seed", "g": 1, "kind": kind, "seed": sd}, {"op": "next_u32", "g": 1}, {"op": "clone", "g": 1, "to": 2},
+                   {"op": "skip", "g": 1, "bytes": n, "via": "fill"}, {"op": "skip", "g": 2, "bytes": n, "via": nat, "mirror": 1}]
+            ops += lockstep([("next_u32", 0), ("next_u64", 0), ("fill_bytes", 13), ("fill_bytes", blk + 3), ("next_u32", 0)], [1, 2])
+            ops += [{"op": "skip", "g": 1, "bytes": 40 * blk, "via": nat}, {"op": "skip", "g": 2, "bytes": 40 * blk, "via": "fill", "mirror": 1}]
+            ops += lockstep([("next_u64", 0), ("next_u32", 0), ("fill_bytes", 7)], [1, 2])
+            if kind in HAS_EQ:
+                ops.append({"op": "eq", "a": 1, "b": 2})
+            S.case("%s far position %d bytes" % (kind, n), ops, weight=40 + n // 200000)
+    return S
+
+
 def c10_corpus(seed, tier, node_paths_by_kind):
     rng = random.Random(seed * 1000003 + 10)
     S = Sched()
@@ -1043,6 +1105,41 @@ def c10_perturbed(images, rng):
     return S
 
 
+def structured_seeds(kind, rng):
+    """non-zero seeds with structure that a folded / summed / partial validity test would mistake for the zero seed
+    or for one another: almost-zero, all-equal words, words cancelling under xor and under wrapping addition"""
+    L, wb = SEEDLEN[kind], WORDBYTES[kind]
+    nw, bits = L // wb, 8 * wb
+    mask = (1 << bits) - 1
+
+    def words(ws):
+        return [b for w in ws for b in (w & mask).to_bytes(wb, "little")]
+    out = []
+    for pos in (0, L // 2, L - 1):
+        for val in (1, 0x80):
+            sd = [0] * L
+            sd[pos] = val
+            out.append(sd)
+    out += [[0x2A] * L, [0xFF] * L]
+    if nw >= 2:
+        a = rng.getrandbits(bits) | 1
+        out.append(words([1, mask] + [0] * (nw - 2)))                       # 1 + (2^w - 1) = 0
+        out.append(words([a, -a] + [0] * (nw - 2)))                          # a + (-a) = 0
+        out.append(words([0] * (nw - 2) + [a, -a]))
+        out.append(words([a, a] + [0] * (nw - 2)))                           # a ^ a = 0
+        out.append(words([a] * nw))                                           # xor of an even number of equal words
+        out.append(words([(1 << bits) // nw] * nw if (1 << bits) % nw == 0 else [1] * nw))   # nw equal words adding up to 2^w
+        out.append(words([1 << (bits - 1)] * 2 + [0] * (nw - 2)))            # two top bits: sum wraps to 0
+        out.append(words([mask] * (nw - 1) + [nw - 1]))                       # (nw-1)*(2^w-1) + (nw-1) = 0 mod 2^w
+        r = [rng.getrandbits(bits) for _ in range(nw - 1)]
+        out.append(words(r + [-sum(r)]))                                      # random words adding up to 0
+        x = 0
+        for v in r:
+            x ^= v
+        out.append(words(r + [x]))                                            # random words xor-ing to 0
+    return [s for s in out if len(s) == L and any(s)]
+
+
 def c11_corpus(seed, tier, node_paths_by_kind):
     rng = random.Random(seed * 1000003 + 11)
     S = Sched()
@@ -1075,6 +1172,18 @@ def c11_corpus(seed, tier, node_paths_by_kind):
             if kind in XO_JUMP and r % 2:
                 pre.append({"op": "jump", "g": 1})
             S.case("%s snapshot #%d" % (kind, r), snap_ops(kind, pre, None))
+        # structured states (every non-zero state of these types is reachable: from_seed stores the seed verbatim)
+        ops = []
+        for si, sd in enumerate(structured_seeds(kind, rng)):
+            for steps in ((0,) if tier == "quick" and si % 3 else (0, 1)):
+                ops += [{"op": "from_seed", "g": 1, "kind": kind, "seed": sd}]
+                if steps:
+                    ops += [{"op": native_op(kind), "g": 1}]
+                ops += [{"op": "ser", "g": 1}, {"op": "de", "g": 1, "to": 2, "fmt": "bincode"}, {"op": "de", "g": 1, "to": 3, "fmt": "json"}]
+                if kind in HAS_EQ:
+                    ops += [{"op": "eq", "a": 1, "b": 2}, {"op": "eq", "a": 1, "b": 3}]
+                ops += lockstep([("next_u32", 0), ("next_u64", 0), ("fill_bytes", 5)], [1, 2, 3])
+        S.case("%s snapshots of structured states" % kind, ops)
     return S
 
 
@@ -1237,4 +1346,4 @@ def c18_corpora(seed, tier):
         jit.case(c["label"], c["ops"], c["weight"])
     for c in c13_corpus(seed, "quick", [{"mean": m, "zr": False, "zd": False, "back": 0, "mod": 0, "stuck": 0} for m in (1, 2, 3, 15, 16, 1 << 20, (1 << 31) + 5, 1 << 32)]).cases:
         jit.case(c["label"], c["ops"], c["weight"])
-    return {"alg": alg, "api": api, "jit": jit}
+    return {"alg": alg, "api": api, "jit": jit, "far": far_corpus(seed, tier)}
